@@ -44,17 +44,19 @@ def run_one(m):
 
 def main():
     args = sys.argv[1:]
-    only = None; jobs = 3
+    only = None; jobs = 3; no_seeded = False
     props = []
     i = 0
     while i < len(args):
         if args[i] == '--only': only = args[i+1]; i += 2
         elif args[i] == '--jobs': jobs = int(args[i+1]); i += 2
+        elif args[i] == '--no-seeded': no_seeded = True; i += 1
         else: props.append(args[i]); i += 1
     ms = json.load(open(os.path.join(V, 'selftest', 'mutants.json')))
     sel = []
     for m in ms:
         if only and m['id'] != only: continue
+        if no_seeded and m['id'].startswith('S:'): continue
         if props:
             pp = [p for p in m['props'] if p in props]
             if not pp: continue
